@@ -388,7 +388,9 @@ func runC18(c *Ctx) {
 		if cm.Dir == types.SendOnly {
 			o.Site(cm.Instr.Pos(), "send %s", cm.Send.String())
 			if _, ok := rootOf(cm.Send).(*ssa.MakeSlice); !ok {
-				o.Fail(cm.Instr.Pos(), "the message queued is not a freshly allocated copy")
+				if k, _ := freshCopyKind(cm.Send, func(v ssa.Value) bool { return sameOrigin(v, ssa.Value(dw.Params[1])) }); k != "append" && k != "clone" {
+					o.Fail(cm.Instr.Pos(), "the message queued is not a freshly allocated copy")
+				}
 			}
 			if fr, ok := asFieldLoad(cm.Chan); !ok || fr.SName != "dpipe.conn" {
 				o.Fail(cm.Instr.Pos(), "Write queues on %s, not on a channel of the pipe end", chanRole(cm.Chan))
